@@ -1,4 +1,4 @@
-import SciVerif.Lemmas.C19r
+import SciVerif.Lemmas.C19s
 
 /-!
 # C19 — Exported configuration files carry the same values as the environment
@@ -384,8 +384,8 @@ example : endsBS (cs!"he said \"hi\", it's C:\\dir # x = \\\"y") = false := by d
     name, type keyword, `[dims]`, ` = `, value (token or quoted text), unit — with the model of the DIP node parser
     gives back exactly the parameters in order: name, kind, precision, shape (declared dimensions = actual
     shape), value, unit.
-    PARTIAL, what is missing: (1) arrays of strings (`'[…]'`, JSON with `\\uXXXX` escapes) are not in the reader
-    model (`none`); (2) string texts containing `$` are excluded because `DIP._determine_node` decodes its own
+    PARTIAL, what is missing: (1) arrays of strings (`'[…]'`, JSON with `\\uXXXX` escapes) are not in this
+    theorem's fragment (they are in `C19_roundtrip_dip_strings_partial` below); (2) string texts containing `$` are excluded because `DIP._determine_node` decodes its own
     place-holders `$@00` / `$@01` / `$@02` also when they occur in a value (reader: `none`); (3) texts ending in
     a backslash are the known finding `dip:string-trailing-backslash`.  These stay covered by the correspondence
     with the real parser only. -/
@@ -423,6 +423,64 @@ example : let data : List Param := [
       ⟨by decide, _, _, rfl, by decide, by decide, by decide, by decide⟩⟩
   · exact Or.inl ⟨by decide, by decide, by decide, by decide, by simp [ValOK, ValsOK, ScalarOK], ⟨[1, 2, 1], by decide, by decide⟩, trivial⟩
   · exact Or.inr ⟨by decide, by decide, by decide, rfl, rfl, _, rfl, by decide, by decide, by decide⟩
+
+/-! ### DIP text: arrays of strings -/
+
+/-- every text without control characters, written as one element of an array of strings by
+    `_parse_dip_scalar(…, element=True)` (`json.dumps`, then `"`, backslash and `'` as `\\uXXXX`; characters outside ASCII
+    as `\\uXXXX`, beyond the BMP as a surrogate pair) and decoded the way `json.loads` decodes a JSON string, comes back
+    unchanged — quotes, backslashes, `$`, characters of every plane included -/
+theorem C19_json_string_roundtrip (v : Str) (h : ∀ ch ∈ v, 32 ≤ ch.toNat) :
+    jsonGo .plain none (v.flatMap dipElemChar) = some v :=
+  jsonGo_elem v h
+
+/-- `_parse_dip_array` text of ANY nested value of strings without control characters and `$` (every rank and size,
+    also ragged), read as JSON nested lists of strings, is the value -/
+theorem C19_dip_string_array_roundtrip (v : Val) (hv : StrArrOK v) :
+    (parseInit .doubled '[' ']' (dipArray v)).bind interpJ = some v :=
+  dipArray_str_roundtrip v hv
+
+/-- **DIP text, string arrays included** (`ParamOKDipAll` = `ParamOKDip` OR an array-of-strings node: a DIP name, the
+    string type, no unit, a rectangular array of any rank without empty levels whose elements contain no control
+    character and no `$` — quotes, backslashes also at the end, `#`, `=`, blanks, brackets, commas, characters outside
+    ASCII and outside the BMP are all allowed): for every list of such parameters, reading the whole exported text with
+    the model of the DIP node parser gives back exactly the parameters in order — name, kind, precision, shape
+    (declared dimensions = actual shape), value, unit.  Strictly stronger than `C19_roundtrip_dip_partial`.
+    PARTIAL, what is missing: (1) string texts containing `$` (scalar or element; `DIP._determine_node` decodes its own
+    place-holders `$@00` / `$@01` / `$@02`); (2) scalar string texts ending in a backslash (known finding
+    `dip:string-trailing-backslash`); (3) elements with control characters (`json.dumps` writes two-character escapes
+    such as `\\t` for them, which neither the exporter model nor the reader model covers).  These stay covered by the
+    correspondence with the real parser only. -/
+theorem C19_roundtrip_dip_strings_partial (data : List Param) (hok : ∀ p ∈ data, ParamOKDipAll p) :
+    (exportDip data).bind readDip = some (expectedDip data) :=
+  readDip_exportDip_all data hok
+
+/-- one exported line -/
+theorem C19_roundtrip_dip_strings_line_partial (p : Param) (h : ParamOKDipAll p) :
+    (lineDip p).bind readDipLine = some { p with tags := [] } :=
+  readDipLine_lineDip_all p h
+
+/-- the hypotheses are satisfiable by a non-trivial environment (a 2x2 array of strings with quotes, backslashes — also
+    at the end —, brackets, commas, `#`, `=`, a character outside ASCII and one outside the BMP; a numeric node; a
+    scalar string), and the text is what the exporter writes -/
+example : let data : List Param := [
+      ⟨cs!"box.names", .str, 0, .arr [.arr [.leaf (.s (cs!"a \"b\" it's")), .leaf (.s (cs!"C:\\d µ 𝄞\\"))],
+        .arr [.leaf (.s (cs!"x, y]")), .leaf (.s (cs!"# = "))]], none, [cs!"t"]⟩,
+      ⟨cs!"n", .int, 32, .leaf (.i 5), none, []⟩,
+      ⟨cs!"s", .str, 0, .leaf (.s (cs!"plain \"q\"")), none, []⟩]
+    (∀ p ∈ data, ParamOKDipAll p) ∧
+      exportDip data = some (cs!"box.names str[2,2] = '[[\"a \\u0022b\\u0022 it\\u0027s\",\"C:\\u005cd \\u00b5 \\ud834\\udd1e\\u005c\"],[\"x, y]\",\"# = \"]]'\nn int = 5\ns str = \"plain \\\"q\\\"\"") ∧
+      (exportDip data).bind readDip = some (expectedDip data) := by
+  intro data
+  have hok : ∀ p ∈ data, ParamOKDipAll p := ?_
+  · exact ⟨hok, by decide +kernel, C19_roundtrip_dip_strings_partial data hok⟩
+  intro p hp
+  simp only [data, List.mem_cons, List.mem_nil_iff, or_false] at hp
+  rcases hp with rfl | rfl | rfl
+  · exact Or.inr ⟨by decide, by decide, by decide, rfl, rfl, ⟨_, rfl⟩, by simp [StrArrOK, StrArrsOK, ElemOK] <;> decide,
+      ⟨[2, 2], by decide, by decide⟩⟩
+  · exact Or.inl (Or.inl ⟨by decide, by decide, by decide, by decide, by simp [ValOK, ScalarOK], ⟨[], by decide, by decide⟩, trivial⟩)
+  · exact Or.inl (Or.inr ⟨by decide, by decide, by decide, rfl, rfl, _, rfl, by decide, by decide, by decide⟩)
 
 /-! ## selection and renaming -/
 
